@@ -496,6 +496,61 @@ func ruleLockPairing(p *Prog, ca *cacheAnchors, r *Report, rule string) []*ssa.F
 				r.Bad(key, pos, "a return at %s is reachable with the mutex still held (no Unlock/defer on that path): every later FromCache/CleanCache blocks forever", p.InstrPos(off))
 			}
 			// a deferred unlock registered BEFORE the lock would also satisfy AllExitsPass only if after; ok.
+			// … and when the critical section runs code that can panic beyond the engine's control — a template is
+			// loaded and compiled in it: loaders, registered tag parsers and filters — the release is deferred: an
+			// explicit Unlock is skipped by a panic, and a caller that recovers finds the cache locked for ever.
+			held := p.heldAt(f, ca.mutexField)
+			foreign := ssa.Instruction(nil)
+			for _, b := range f.Blocks {
+				for _, in := range b.Instrs {
+					ci, isCall := in.(ssa.CallInstruction)
+					if !isCall || !held(in) {
+						continue
+					}
+					if _, isDefer := in.(*ssa.Defer); isDefer {
+						continue
+					}
+					var roots []*ssa.Function
+					for _, c := range p.Callees(p.CG, ci) {
+						if p.InPkg(c) {
+							roots = append(roots, c)
+						}
+					}
+					if len(roots) == 0 {
+						continue
+					}
+					for g := range p.Reach(p.CG, roots, nil) {
+						if g.Blocks == nil {
+							continue
+						}
+						for _, gb := range g.Blocks {
+							for _, gi := range gb.Instrs {
+								if c, ok := gi.(*ssa.Call); ok && c.Common().IsInvoke() && foreign == nil {
+									if it, isI := c.Common().Value.Type().Underlying().(*types.Interface); isI && it.NumMethods() > 0 {
+										if nt, isN := c.Common().Value.Type().(*types.Named); isN && nt.Obj().Name() == "TemplateLoader" {
+											foreign = in
+										}
+									}
+								}
+							}
+						}
+					}
+				}
+			}
+			if foreign != nil {
+				deferred := false
+				for _, o := range mine {
+					if !o.Lock && o.Deferred {
+						deferred = true
+					}
+				}
+				dkey := p.FuncName(f) + ":Lock:panic-safe"
+				if deferred {
+					r.OK(dkey, pos, "the critical section loads a template (loader code runs in it); the release is deferred")
+				} else {
+					r.Bad(dkey, pos, "the critical section loads and compiles a template (call at %s: loaders, registered tag parsers and filters run with the mutex held) but the mutex is released by explicit Unlock calls only: a panic in that code — which a caller may recover from — leaves the cache locked, and every later FromCache/CleanCache of the set blocks for ever", p.InstrPos(foreign))
+				}
+			}
 		}
 	}
 
